@@ -28,6 +28,7 @@ def rewrite_lines(
 ) -> typ.List[str]:
     """Replace occurances of patterns in old_lines with new_vinfo."""
     found_patterns: typ.Set[Pattern] = set()
+    replacements  : typ.Dict[int, typ.List[typ.Tuple[int, int, str]]] = {}
 
     new_lines = old_lines[:]
     for match in parse.iter_matches(old_lines, patterns):
@@ -37,8 +38,15 @@ def rewrite_lines(
         )
         replacement = v2version.format_version(new_vinfo, normalized_pattern)
         span_l, span_r = match.span
-        new_line = match.line[:span_l] + replacement + match.line[span_r:]
-        new_lines[match.lineno] = new_line
+        replacements.setdefault(match.lineno, []).append((span_l, span_r, replacement))
+
+    # There may be matches of multiple patterns on the same line. The spans
+    # refer to the old line, so we replace from right to left.
+    for lineno, line_replacements in replacements.items():
+        new_line = old_lines[lineno]
+        for span_l, span_r, replacement in sorted(line_replacements, reverse=True):
+            new_line = new_line[:span_l] + replacement + new_line[span_r:]
+        new_lines[lineno] = new_line
 
     if set(patterns) == found_patterns:
         return new_lines
